@@ -1,4 +1,5 @@
 """C18 — hand-offs between rounds preserve totals, bounds and priorities."""
+import copy
 import types
 
 import numpy as np
@@ -230,6 +231,38 @@ def judge_bump(ctx, b, f, ob, of, maxb, maxf, c):
                  "month %d: biofuel %.12g (demand %.12g), feed %.12g (demand %.12g)" % (m, ob[m], maxb[m], of[m], maxf[m]), c)
 
 
+def more_meat_without_feed(ctx, cap, case):
+    """the branch few (country, strategy, climate) cells take: the herds simulated WITH feed give less meat in total than the no-feed
+    herds.  Then no re-timing can keep every month at or above the no-feed level, so the only hand-off that satisfies the property is
+    none (the feed round is abandoned, all five outputs None).  Reached on every run by handing compute_parameters_second_round the
+    run's own arguments with the no-feed meat series scaled above the with-feed total."""
+    a = cap.rounds["second"]["args"]
+    out0 = cap.rounds["second"]["out"]
+    r1 = np.asarray(a[2]["each_month_meat_slaughtered"].kcals, float)
+    herd2 = [h for h in cap.herds if h["round"] == "second"]
+    if not herd2 or r1.sum() <= 0:
+        return
+    from checks.c05 import meat_from_herd
+    raw2 = np.asarray(meat_from_herd(herd2[0]["obj"], a[0]), float)
+    tc1 = copy.deepcopy(a[2])
+    k = max(1.0, raw2.sum() / r1.sum()) * 1.02
+    tc1["each_month_meat_slaughtered"].kcals = r1 * k
+    try:
+        with quiet():
+            out = cap.rounds["second"]["obj"].compute_parameters_second_round(a[0], a[1], tc1, a[3])
+    except Exception as e:       # noqa: BLE001  (an assertion of the model's own is a refusal, not a hand-off)
+        ctx.event("more_meat_without_feed_refused_" + type(e).__name__)
+        return
+    ctx.event("more_meat_without_feed_%s" % ("cull" if a[0]["ADD_MEAT"] else "no_cull"))
+    if out[1] is not None:
+        new2 = np.asarray(out[1]["each_month_meat_slaughtered"].kcals, float)
+        scale = max(1.0, float(np.max(r1 * k)))
+        below = new2 < r1 * k - 1e-9 * scale
+        ctx.fail("feed-round-handed-a-meat-series-below-the-no-feed-level",
+                 "no-feed total %.9g > with-feed total %.9g, yet the feed round is handed a series with %d months below the no-feed level "
+                 "(culled meat %s)" % ((r1 * k).sum(), raw2.sum(), int(below.sum()), "eaten" if a[0]["ADD_MEAT"] else "not eaten"), case)
+
+
 def run_real(ctx, iso3, options, title):
     r = model.run_case(iso3, options, title=title)
     case = dict(kind="run", iso3=iso3, options=options)
@@ -255,6 +288,8 @@ def run_real(ctx, iso3, options, title):
         ctx.nontrivial_case(dict(iso3=iso3, options=options))
     elif "second" in cap.rounds:
         ctx.event("real_feed_round_skipped_meat_lower")
+    if "second" in cap.rounds:
+        more_meat_without_feed(ctx, cap, case)
     tc3 = cap.rounds["third"]["out"][1]
     fd, bd = cap.rounds["first"]["out"][4], cap.rounds["first"]["out"][5]
     f3, b3 = np.asarray(tc3["feed"].kcals, float), np.asarray(tc3["biofuel"].kcals, float)
